@@ -59,8 +59,35 @@ template <class T> std::shared_ptr<T> vm_materialise(const std::string &bank) {
   return c;
 }
 
+// The message logger: messages go to stderr (never into the row protocol) when the temporary dies, as in CMSSW.
+class vm_log_stream {
+  std::ostringstream s_;
+public:
+  vm_log_stream(const char *sev, const std::string &cat) { s_ << "%MSG-" << sev << " " << cat << ": "; }
+  vm_log_stream(vm_log_stream &&o) : s_(std::move(o.s_)) {}
+  ~vm_log_stream() { std::cerr << s_.str() << "\n"; }
+  template <class T> vm_log_stream &operator<<(const T &v) { s_ << v; return *this; }
+};
+struct LogError : vm_log_stream { LogError(const std::string &c) : vm_log_stream("e", c) {} };
+struct LogWarning : vm_log_stream { LogWarning(const std::string &c) : vm_log_stream("w", c) {} };
+struct LogInfo : vm_log_stream { LogInfo(const std::string &c) : vm_log_stream("i", c) {} };
+struct LogPrint : vm_log_stream { LogPrint(const std::string &c) : vm_log_stream("p", c) {} };
+
+class EventID {
+  unsigned ev_;
+public:
+  explicit EventID(unsigned e) : ev_(e) {}
+  unsigned run() const { return 1; }
+  unsigned luminosityBlock() const { return 1; }
+  unsigned long long event() const { return ev_; }
+};
+
 class Event {
 public:
+  // position of the event in the job (the model has one run, one luminosity block)
+  EventID id() const { return EventID((unsigned)(vm::store().ev ? vm::store().ev->id : 0)); }
+  unsigned luminosityBlock() const { return 1; }
+  unsigned run() const { return 1; }
   template <class T> bool getByLabel(const std::string &label, Handle<T> &h) const {
     h.vm_set(vm_materialise<T>(label));
     return h.isValid();
